@@ -48,12 +48,30 @@ type Use struct {
 }
 
 type Date time.Time
+
+// embedded struct of another package that nothing else mentions
+type Doc struct {
+	sub.Audit
+	Title string
+}
+
+// self-recursive named map, zero-length array
+type Tree map[string]Tree
+type Z struct{ E [0]int64 }
 `
 
 const govcGraphSub = `package sub
 
 type S struct{ V int }
 type E uint8
+
+type Audit struct {
+	By   string
+	Rev  int
+	Meta AuditMeta
+}
+
+type AuditMeta struct{ N int }
 
 const (
 	E0 E = iota
@@ -100,8 +118,8 @@ func TestGovcHarness_Graph(t *testing.T) {
 		}
 		last = n.Obj()
 	}
-	if len(ana.Source) != 10 {
-		fail("%d source declarations reported, want 10", len(ana.Source))
+	if len(ana.Source) != 13 {
+		fail("%d source declarations reported, want 13", len(ana.Source))
 	}
 	// faithfulness of every node of the table, and closure under links
 	seen := map[Type]bool{}
@@ -172,6 +190,50 @@ func TestGovcHarness_Graph(t *testing.T) {
 			}
 		}
 	}
+	// closure on the go/types side: every named or composite type reachable from the source declarations through
+	// fields (embedded ones included), elements, keys and underlying types has an entry in the table
+	seenGo := map[types.Type]bool{}
+	var walk func(t types.Type, from string)
+	walk = func(t types.Type, from string) {
+		t = types.Unalias(t)
+		if seenGo[t] {
+			return
+		}
+		seenGo[t] = true
+		cases++
+		if containsTime(t) {
+			if _, isNamed := t.(*types.Named); isNamed {
+				return // time.Time and named times are reported as predefined nodes
+			}
+		}
+		if _, has := ana.Types[t]; !has {
+			found := false
+			for k := range ana.Types {
+				if types.Identical(k, t) {
+					found = true
+				}
+			}
+			if !found {
+				fail("type %s, reachable from the source through %s, is not in the analysis result", t, from)
+			}
+		}
+		switch u := t.Underlying().(type) {
+		case *types.Struct:
+			for i := 0; i < u.NumFields(); i++ {
+				walk(u.Field(i).Type(), "field "+u.Field(i).Name()+" of "+t.String())
+			}
+		case *types.Slice:
+			walk(u.Elem(), "element of "+t.String())
+		case *types.Array:
+			walk(u.Elem(), "element of "+t.String())
+		case *types.Map:
+			walk(u.Key(), "key of "+t.String())
+			walk(u.Elem(), "element of "+t.String())
+		}
+	}
+	for _, s := range ana.Source {
+		walk(s, "source")
+	}
 	// closure: every node reached by links is a value of the table (or an enum / time shared node)
 	inTable := map[Type]bool{}
 	for _, node := range ana.Types {
@@ -184,7 +246,17 @@ func TestGovcHarness_Graph(t *testing.T) {
 			continue
 		}
 		if !inTable[n] {
-			fail("node %T (%s) reached through links is not in the analysis result", n, n.Type())
+			// the property asks for the TYPE to be present (a recursive named map is described by two equal
+			// Named nodes, only one of which is the table's): the type the node describes must be a key
+			found := false
+			for k := range ana.Types {
+				if types.Identical(types.Unalias(k), n.Type()) {
+					found = true
+				}
+			}
+			if !found {
+				fail("node %T (%s) reached through links describes a type that is not in the analysis result", n, n.Type())
+			}
 		}
 	}
 }
